@@ -1,6 +1,8 @@
 #!/bin/sh
-# runs every thorough check once, sequentially (each one uses all cores); log in build/thorough.log
+# runs every thorough check once per seed, sequentially (each one uses all cores); log in build/thorough.log
 cd /verif
-for p in C14 C19 C20 C04 C05 C06 C07 C15 C11 C13 C16 C10 C01 C02 C03 C12 C08 C17 C18 C09; do
-  /usr/bin/time -f "%es" ./check $p --tier thorough 2>&1 | tail -4
+for seed in "$@"; do
+for p in C07 C13 C02 C08 C17 C18 C09 C01 C03 C12 C16 C10 C11 C15 C04 C05 C06 C14 C19 C20; do
+  VERIF_SEED=$seed /usr/bin/time -f "%es" ./check $p --tier thorough 2>&1 | tail -4
+done
 done
